@@ -144,6 +144,23 @@ def build(pid, variant="main"):
     return exe
 
 
+def build_aux(cfg):
+    """Helper programs that do not depend on /repo (e.g. the scripted child of C15)."""
+    out = {}
+    os.makedirs(OBJ, exist_ok=True)
+    for name, src in cfg.get("aux", {}).items():
+        sp = os.path.join(ROOT, src)
+        exe = os.path.join(OBJ, sha("aux", name, read(sp)) + ".aux")
+        if not os.path.exists(exe):
+            tmp = exe + ".tmp%d" % os.getpid()
+            run_parallel([(["gcc", "-O1", "-g1", "-Wall", sp, "-o", tmp], "aux " + name)])
+            os.replace(tmp, exe)
+        else:
+            os.utime(exe)
+        out["VF_AUX_" + name] = exe
+    return out
+
+
 class Job:
     def __init__(self, exe, section, shard, nshards, stall, tier, outdir, env):
         self.exe, self.section, self.shard, self.nshards, self.stall = exe, section, shard, nshards, stall
@@ -329,6 +346,7 @@ def main():
 
     if args.replay:
         rp = json.load(open(args.replay))
+        env.update(build_aux(cfg))
         exe = build(pid, rp.get("variant", "main"))
         outdir = os.path.join(BUILD, "out", pid + "-replay")
         shutil.rmtree(outdir, ignore_errors=True)
@@ -356,6 +374,7 @@ def main():
     variants = ["main"] + [v for v, vc in cfg.get("variants", {}).items() if tier in vc.get("tiers", ["quick", "thorough"])]
     alljobs, timed_out, exes = [], False, {}
     try:
+        env.update(build_aux(cfg))
         for v in variants:
             exes[v] = build(pid, v)
     except RuntimeError as e:
